@@ -3,3 +3,5 @@
 set -e
 cd /verif/conform
 CARGO_NET_OFFLINE=true CARGO_TARGET_DIR=/verif/target cargo build --offline
+# the real server executable, for the C17 process leg (built by /repo's own manifest into /verif/target/repo)
+CARGO_NET_OFFLINE=true CARGO_TARGET_DIR=/verif/target/repo cargo build --offline --manifest-path /repo/Cargo.toml -p taskchampion-sync-server --bin taskchampion-sync-server
